@@ -128,12 +128,24 @@ def settings_roundtrip(rep, F, tag):
                     '%s:%d' % (adt['file'], adt['sp']['l']), detail={'fields': len(fields), 'emitted': len(emitted)})
         lf = F.one(name='load_from_file')
         uo = [c for c in lf.calls if c.callee.name == 'unwrap_or']
-        ok = any(canon(lf.sym_operand(c.args[0])) == 'arg2' and canon(lf.sym_operand(c.args[1])).endswith('.settings') for c in uo)
-        R.check(ok, 'override' + tag, 'load_from_file does not build the settings as settings.unwrap_or(stored)', lf.loc())
         nw = [c for c in lf.calls if c.callee.name == 'new' and 'solver' in (c.callee.key or '')]
-        R.check(len(nw) == 1 and 'unwrap_or(arg2' in canon(lf.sym_operand(nw[0].args[5])), 'override-used' + tag, 'the constructor does not receive the overridden settings', lf.loc())
+        if len(nw) != 1:
+            raise AnchorError('constructor call in load_from_file')
+        # the settings handed to the constructor are the override when one is given, the stored ones otherwise - written as unwrap_or or as a match
+        n_ctor = 0
+        for val, ret, ev, tr in Walker(lf).leaves():
+            for e in ev:
+                if e[0] == 'call' and e[1] == 'new' and e[3] == nw[0].bb:
+                    a = split_args(str(e[2]))
+                    sarg = resolve_path_locals(lf, a[-1], tr) if a else ''
+                    d = [v for k, v in val.items() if k.startswith('discr(arg2)')]
+                    ok = ('unwrap_or(arg2, ' in sarg and '.settings' in sarg) or (d and d[0] == 1 and sarg.startswith('arg2@Some.0')) or (d and d[0] == 0 and sarg.endswith('.settings'))
+                    n_ctor += 1
+                    R.check(ok, 'override' + tag, 'load_from_file constructs the solver with the settings %s under %s: expected the override if given, the stored settings otherwise' % (
+                        sarg[:80], {k: v for k, v in val.items() if k.startswith('discr(arg2)')}), lf.loc())
+        R.check(n_ctor >= 1, 'override-used' + tag, 'no path of load_from_file reaches the constructor', lf.loc())
         ds = one_call(lf, 'desanitize_settings')
-        R.check(all(lf.dominates(ds.bb, c.bb) for c in uo), 'desanitize-first' + tag, 'stored settings are used before being desanitised', lf.loc())
+        R.check(all(lf.dominates(ds.bb, c.bb) for c in uo) and lf.dominates(ds.bb, nw[0].bb), 'desanitize-first' + tag, 'stored settings are used before being desanitised', lf.loc())
 
     R.guard(body)
 
